@@ -1537,7 +1537,10 @@ impl CodegenContext {
             Some(data) => match data {
                 SymbolData::Number(n) => Ok(Some(n)),
                 _ => Err(Diagnostic::error()
-                    .with_message(format!("'{}' does not evaluate to an integer", &expr.data))
+                    .with_message(format!(
+                        "'{}' does not evaluate to an integer",
+                        expr.data.to_plain_string()
+                    ))
                     .with_labels(vec![expr.span.to_label()])
                     .into()),
             },
@@ -1555,7 +1558,10 @@ impl CodegenContext {
         match result {
             Some(SymbolData::String(data)) => Ok(Some(data)),
             Some(_) => Err(Diagnostic::error()
-                .with_message(format!("'{}' does not evaluate to a string", &expr.data))
+                .with_message(format!(
+                    "'{}' does not evaluate to a string",
+                    expr.data.to_plain_string()
+                ))
                 .with_labels(vec![expr.span.to_label()])
                 .into()),
             None => Ok(None),
